@@ -333,6 +333,10 @@ def predicate(case, res):
         if mut and not (mut["others_same"] and mut["lists_same"] and mut["input_same"]):
             bad.append(("C17:copy-not-independent", "changing one embedded copy changed something else (%s)" % mode, "no change", mut))
     pr = res.get("parser")
+    if pr is not None and pr.get("hidden_docs"):
+        bad.append(("C17:copy-drags-document-copy:parsed-document", "in a document built by the parser every embedded copy carries, through "
+                    "parent_object_, a private deep copy of the whole document (which holds the earlier copies and theirs ...): time and "
+                    "memory double with every referring cell", 0, pr["hidden_docs"]))
     if pr is not None:
         if pr["outcome"] == "other":
             bad.append(("C17:parser:unexpected-exception", "NeuroMLXMLParser.parse failed unexpectedly", "ok or KeyError", pr["detail"]))
@@ -404,7 +408,9 @@ def run(ck):
     cases = fixed_cases() + [g.case() for _ in range(ck.n(200, 2000))]
     for i, c in enumerate(cases):
         # also through NeuroMLXMLParser.parse (file -> include resolution -> fix), for the file forms an <include> may have there
-        c["via_parser"] = i < ck.n(80, 400) and all(f["href"].endswith(PARSER_FORMS) for f in c["incs"])
+        # (at most 8 referring slots there: see the known finding C17:copy-drags-document-copy - the cost doubles per slot)
+        c["via_parser"] = (i < ck.n(80, 400) and all(f["href"].endswith(PARSER_FORMS) for f in c["incs"]) and
+                           sum(1 for x in c["cells"] for k in ("m", "b") if x[k]["attr"] is not None and x[k]["emb"] is None) <= 8)
     results = []
     for i in range(0, len(cases), 500):
         got = ck.impl("c17_impl.py", {"cases": cases[i:i + 500], "ctor_probe": i == 0}, timeout=1500)
